@@ -56,7 +56,7 @@ def selftest(prop: str, repo: str, run: Run) -> None:
             if not os.path.exists(mp) or not os.path.exists(os.path.join(seeded, d, "patch.diff")):
                 continue
             meta = json.load(open(mp))
-            if d.startswith("benign") or d.startswith("B-"):
+            if d.startswith(("benign", "B-", "B3-")):
                 expect[d] = "silent"
                 jobs.append((prop, repo, os.path.join(seeded, d)))
             elif prop in meta.get("detected_by", {}):
